@@ -41,7 +41,7 @@ def main():
             print("demo: clean exit=%d, patched exit=%d" % (r0.returncode, r1.returncode))
         ok = True
         for p in props:
-            env2 = dict(os.environ, SIGPY_REPO=wt)
+            env2 = dict(os.environ, SIGPY_REPO=wt, VERIF_EVIDENCE_DIR="/tmp/mutrun/evidence")
             r = sh([os.path.join(verif, "check"), p, "--tier", tier], env=env2, cwd=verif)
             v = [l for l in r.stdout.split("\n") if l.startswith("VIOLATION") or l.startswith("KNOWN-FINDING")]
             last = [l for l in r.stdout.split("\n") if l.startswith(p + " tier=")]
